@@ -159,6 +159,31 @@ func ctorArgSets(p *Pkg, pl *RespPayload, c Ctor, codes []int, rawBody string) [
 			if len(vs) > 6 {
 				vs = append(vs[:5:5], vs[len(vs)-1])
 			}
+			// lists of strings: always a single element that itself contains a comma, and one with an empty element
+			// in the middle (one field line per element: folding and unfolding must not change the list)
+			for _, l := range [][]string{{"x,y"}, {"x", "", "y"}} {
+				st := it
+				var wrap func(reflect.Value) reflect.Value
+				if isWrapper(it) && it.NumField() == 2 {
+					st = it.Field(1).Type
+					wrap = func(v reflect.Value) reflect.Value {
+						w := reflect.New(it).Elem()
+						w.Field(0).SetBool(true)
+						w.Field(1).Set(v)
+						return w
+					}
+				}
+				if st.Kind() == reflect.Slice && st.Elem().Kind() == reflect.String {
+					sv := reflect.MakeSlice(st, 0, len(l))
+					for _, x := range l {
+						sv = reflect.Append(sv, reflect.ValueOf(x).Convert(st.Elem()))
+					}
+					if wrap != nil {
+						sv = wrap(sv)
+					}
+					vs = append(vs, sv)
+				}
+			}
 			doms[i] = vs
 		}
 	}
